@@ -43,7 +43,7 @@ def run_case(seed, index, props):
         filt[name + suf] = val
         if name in PROPS: tags.add('property-backed-attribute')
     desc = {'wbs': [dict(describe_task(t), prio=getattr(t, 'prio', '<absent>')) for t in w.tasks], 'filter': filt}
-    if not filt: return [], tags, desc, 'skip'
+    if not filt and rng.random() < .5: return [], tags, desc, 'skip'          # else: the call without any filter selects every task
 
     def want_fn(t):
         for k, v in filt.items():
